@@ -473,13 +473,13 @@ double BasicPLApproximator<FuncCon>::maxErrorRelAbove1(
       points.push_back( { eval(xMidDn), y0 + (xMidDn-x0) * slope } );
     }
   }
-  if (f0<1.0 && f1>1.0) {
+  if ((f0<1.0 && f1>1.0) || (f0>1.0 && f1<1.0)) {
     auto x_preim_1 = inverse_with_check(1.0);
     MP_ASSERT_ALWAYS(x0<=x_preim_1 && x1>=x_preim_1,
                      "PLApprox maxErrRel(): preim(1.0) outside");
     points.push_back( { 1.0, y0 + (x_preim_1-x0) * slope } );
   }
-  if (f0<-1.0 && f1>-1.0) {
+  if ((f0<-1.0 && f1>-1.0) || (f0>-1.0 && f1<-1.0)) {
     auto x_preim_1 = inverse_with_check(-1.0);
     MP_ASSERT_ALWAYS(x0<=x_preim_1 && x1>=x_preim_1,
                      "PLApprox maxErrRel(): preim(-1.0) outside");
